@@ -10,8 +10,10 @@ use crate::query::range_queries;
 
 pub fn run(tier: Tier) -> i32 {
     let mut rep = Report::new("C04", tier, "model_checking");
-    // thorough: subsets of size <= 4 (102 k) on two of the four layout/padding variants
-    let files = QFiles::new(tier, (4, 5), (3, 4)).limit_universe_variants(tier.pick(4, 2));
+    // universe subsets (size <= 3 quick, <= 4 thorough) on the two most different of the four
+    // layout/padding variants (single block L0; 700-byte values L2): with all four the quick tier did
+    // not finish within its cap on a loaded machine
+    let files = QFiles::new(tier, (4, 5), (3, 4)).limit_universe_variants(2);
     let deadline = Deadline::after(Duration::from_secs(tier.pick(50, 3000)));
     let acc = par_for(files.len(), 8, &deadline, |i, acc| {
         let (spec, big) = files.get(i);
